@@ -52,6 +52,7 @@ Clause(c) ==
                CASE c.estimator = "median" -> ~Near(2 * val, S * m2, 3)
                  [] c.estimator = "mean" -> ~Near(val * n, S * sum, 2 * n)
                  [] c.estimator \in {"mmm", "mode"} -> ~Near(2 * n * val, S * (3 * n * m2 - 4 * sum), 6 * n)
+                 [] c.estimator = "biweight" -> FALSE                      \* not re-derived (relations only)
                  [] c.estimator = "sextractor" ->
                       IF R = 0 THEN ~Near(val * n, S * sum, 2 * n)
                       ELSE IF NA(L) >= 4000 \/ R >= 200000000 THEN FALSE                       \* outside 32-bit range: not decided
